@@ -760,11 +760,12 @@ def l24_request_sweep(rng, w):
     for dm in macs:
         for s6 in (w.cl6, bytes(16), ip6('fe80::7'), ip6('::1')):
             frames.append(eth(dm, w.cl_mac, 0x86dd, ipv6(s6, w.my6, 58, icmp6(128, 0, b'abcdefgh', s6, w.my6))))
-            ns = icmp6(135, 0, bytes(4) + w.my6 + (b'' if s6 == bytes(16) else b'\x01\x01' + w.cl_mac), s6, w.my6)
-            frames.append(eth(dm, w.cl_mac, 0x86dd, ipv6(s6, w.my6, 58, ns, hlim=255)))
             sn = bytes.fromhex('ff0200000000000000000001ff') + w.my6[13:16]
-            ns2 = icmp6(135, 0, bytes(4) + w.my6 + (b'' if s6 == bytes(16) else b'\x01\x01' + w.cl_mac), s6, sn)
-            frames.append(eth(dm, w.cl_mac, 0x86dd, ipv6(s6, sn, 58, ns2, hlim=255)))
+            # with and without options (source link-layer address, an unknown option, two options), whatever the source
+            for opt in (b'', b'\x01\x01' + w.cl_mac, b'\x0e\x01' + bytes(6), b'\x0e\x01' + bytes(6) + b'\x01\x01' + w.cl_mac):
+                for d6 in (w.my6, sn):
+                    ns = icmp6(135, 0, bytes(4) + w.my6 + opt, s6, d6)
+                    frames.append(eth(dm, w.cl_mac, 0x86dd, ipv6(s6, d6, 58, ns, hlim=255)))
             frames.append(eth(dm, w.cl_mac, 0x86dd, ipv6(s6, w.my6, 6, lib.tcp(4000, 80, 1, 0, 2, src=s6, dst=w.my6))))
         for s4 in (w.cl4, bytes(4), ip4('169.254.1.1'), ip4('127.0.0.1')):
             frames.append(eth(dm, w.cl_mac, 0x0800, ipv4(s4, w.my4, 1, icmp(8, 0, b'abcdefgh'))))
